@@ -158,6 +158,8 @@ static inline struct wb_string wb_string_from_cstr(const char *s) { struct wb_st
 static inline struct wb_string wb_string_from_char(char c) { struct wb_string r = { __CPROVER_uninterpreted_str_of_char(c) }; return r; }
 static inline struct wb_string wb_string_concat(struct wb_string a, struct wb_string b) { struct wb_string r = { __CPROVER_uninterpreted_str_concat(a.h, b.h) }; return r; }
 static inline struct wb_string wb_to_string_ul(unsigned long x) { struct wb_string r = { __CPROVER_uninterpreted_str_of_ulong(x) }; return r; }
+/* a std::string built from a string literal: the handle is a hash of the literal's content (0 = empty string) */
+static inline struct wb_string wb_string_lit(unsigned long h) { struct wb_string r = { h }; return r; }
 static inline struct wb_string wb_string_empty(void) { struct wb_string r = { 0 }; return r; }
 static inline _Bool wb_string_eq(struct wb_string a, struct wb_string b) { return a.h == b.h; }
 static inline _Bool wb_string_is_empty(struct wb_string a) { return a.h == 0; }
